@@ -19,14 +19,17 @@ def selTranslated (cuda numba : Bool) : ℕ → String → String := fun K hint 
   | .error _ => ""
 
 /-- the translated per-bin loop, dispatched by the TRANSLATED backend decision table, is the model analysis — for every setting of the two
-    module flags, every hint, every plan -/
+    module flags, every hint, every plan.  `hQ`: for the polynomial orders the basis has at least two columns at the segment lengths of the
+    bins read (the generalised hypothesis of `LpsdCoreGen.gen_lpsd_core_eq_model_all_backends`; Props/PipelineClosed discharges it for the
+    translated `_build_Q`) -/
 theorem gen_lpsd_core_translated_backend (cuda numba : Bool) (u : ℕ → ℕ → ℝ) (bq : ℕ → ℤ → Arr2 ℝ) (wf : NpLC.WinFunc ℝ)
-    (alpha : ℝ) (order : ℤ) (hQ : order = 1 ∨ order = 2 → ∀ L, (bq L order).m = (order + 1).toNat)
-    (cb : String) (x1 x2 : Arr ℝ) (iscsd : Bool) (fs : ℝ) (nx : ℤ) (pL : Arr ℕ) (pD : Arr (Arr ℕ)) (pf : Arr ℝ) (idx : List ℕ) :
+    (alpha : ℝ) (order : ℤ)
+    (cb : String) (x1 x2 : Arr ℝ) (iscsd : Bool) (fs : ℝ) (nx : ℤ) (pL : Arr ℕ) (pD : Arr (Arr ℕ)) (pf : Arr ℝ) (idx : List ℕ)
+    (hQ : order = 1 ∨ order = 2 → ∀ i ∈ idx, 2 ≤ (bq (pL.get i) order).m) :
     ((Gen._lpsd_core (LpsdCoreGen.genFamilyAll u) bq (selTranslated cuda numba) wf alpha order cb x1 x2 iscsd fs nx pL pD pf idx).2).map
         LpsdCoreGen.rowStats
       = Model.lpsdCore iscsd order x1 x2 fs (Model.lpsdWindow wf alpha) bq (idx.map (Model.pbinAt pf pL pD)) :=
-  LpsdCoreGen.gen_lpsd_core_eq_model_all_backends u bq (selTranslated cuda numba) wf alpha order hQ cb x1 x2 iscsd fs nx pL pD pf idx
+  LpsdCoreGen.gen_lpsd_core_eq_model_all_backends u bq (selTranslated cuda numba) wf alpha order cb x1 x2 iscsd fs nx pL pD pf idx hQ
 
 /-- …and whenever it does not raise, the answer is one of the three backend names the dispatch knows -/
 theorem selTranslated_names (cuda numba : Bool) (K : ℕ) (hint : String) :
